@@ -55,7 +55,7 @@ def exact_family(chk, rng, n_cases, found):
         a, b = (F(2) ** rng.randint(-3, 0), F(rng.randint(1, 4), 4)) if tiny else (F(2) ** rng.randint(-3, 3), F(rng.randint(1, 7), 4))
         if [-46, -36, 40, 0, -9, 3][(i // len(EXACT)) % 6] == -9 and m >= 2:
             # not left to chance: one row of diag(c1) J far below norm 1e-4, its neighbour far above
-            c1[1], c2[1] = F(1, 2 ** 10), F(1, 2 ** 7)
+            c1[1], c2[1] = F(1, 2 ** 10), F(2) ** rng.randint(2, 6)     # tiny under c1 only: the three scalings differ
             c1[0], c2[0] = F(2) ** rng.randint(3, 8), F(2) ** rng.randint(3, 8)
         c3 = [a * x + b * y for x, y in zip(c1, c2)]
         c = {"name": name, "params": p, "J": J, "cat": cat}
@@ -84,6 +84,46 @@ def exact_family(chk, rng, n_cases, found):
                 chk.violation(f"{name}: c -> A(diag(c) J) is not linear on positive vectors "
                               f"(relative defect {err/sc:.3e})", rep)
                 found.add((name, A.jsonable(J).__repr__(), dt))
+
+
+def small_row_family(chk, found):
+    """deterministic: ONE row of diag(c1) J is tiny (2^-10 ... 2^-24 times the others) while diag(c2) J is balanced.
+    The correction a row forces on a conflicting one does not depend on its length, so a row may be short but is
+    never "null": thresholds on norms (absolute tolerances, isclose to zero, eps in a normalisation) show here."""
+    mats = [[[1, 2, -1], [-2, F(1, 2), 1]], [[-4, 1, 1], [6, 1, 1]], [[3, -1, 2], [-3, 2, -1], [1, 1, -4]],
+            [[2, 0, -1, 1], [-1, 1, 2, -2], [-2, -1, 0, 1]]]
+    for J0 in mats:
+        J = [[F(x) for x in r] for r in J0]
+        m = len(J)
+        for name in ("PCGrad", "ConFIG", "Mean", "Sum", "Random"):
+            for j in range(m):
+                for k in (10, 14, 18, 24):
+                    c1 = [F(1)] * m
+                    c1[j] = F(1, 2 ** k)
+                    c2 = [F(1) + F(i, 4) for i in range(m)]
+                    a, b = F(3, 2), F(3, 4)
+                    c3 = [a * x + b * y for x, y in zip(c1, c2)]
+                    p = A.gen_params(pyrandom.Random(3), name, m)
+                    if name == "ConFIG":
+                        p = {"pref": None}
+                    for dt in ("f64", "f32"):
+                        o = [A.impl_call(name, p, scale_rows(c, J), dt, seed=11) for c in (c1, c2, c3)]
+                        chk.cov["evaluations"] += 3
+                        if not all(x[0] == "ok" for x in o):
+                            continue
+                        exp = lincomb(a, o[0][1], b, o[1][1])
+                        sc = float(A.maxabs(scale_rows(c3, J))) * m
+                        err = max(abs(x - y) for x, y in zip(o[2][1], exp))
+                        if err > TOL[dt] * sc:
+                            c = {"name": name, "params": p, "J": J, "cat": "small_row"}
+                            rep = R.case_json(c, dt)
+                            rep.update({"kind": "oracle", "c1": A.jsonable(c1), "c2": A.jsonable(c2), "a": str(a),
+                                        "b": str(b), "lhs": o[2][1], "rhs": exp})
+                            chk.violation(f"{name}: c -> A(diag(c) J) is not linear on positive vectors when row {j} of "
+                                          f"diag(c1) J is 2^-{k} times the others (relative defect {err/sc:.3e})", rep)
+                            found.add((name, A.jsonable(J).__repr__(), dt))
+                            return
+    chk.count({"small_row_family": "4 matrices x 5 aggregators x rows x 2^-10..2^-24"}, nontrivial=True)
 
 
 def upgrad_ladder(chk, rng, n_cases, found):
@@ -161,6 +201,7 @@ def run(chk):
     rng = pyrandom.Random(chk.seed * 86028121 + 9)
     q = chk.tier == "quick"
     found = set()
+    small_row_family(chk, found)
     exact_family(chk, rng, 90 if q else 1500, found)
     upgrad_ladder(chk, rng, 25 if q else 300, found)
     # UPGrad at the ends of the dtype's range: c1 = c2 = 2^e (1, ..., 1) is the homogeneity instance of the identity
